@@ -14,7 +14,7 @@ import (
 func init() {
 	register(&propDef{
 		id: "C04", level: "other", run: runC04,
-		explanation: "Decided: (R1) the input reader is read at exactly the enumerated sites; (R2) for each read site, every path from the read to a success exit of the enclosing function passes a write of exactly the bytes read into the running checksum (structural equality of slice access paths for exact-length reads; base/low/high = low+n algebra for the partial read in fill; the CRC-only copy's sink is the hash itself); (R3) hash typestate: every Sum16 whose result is compared or stored is dominated by at least one Write on that hash since its creation; (R4) verdict dominance: each nil return of checkCRC/decodeHeader/Header.CheckIntegrity/decode is dominated by a zero-residue test or a documented exemption edge (12-byte header, stored header CRC 0, header-only/file-id-only mode); (R5) the header layouts of decodeHeader, Header.CheckIntegrity and Header.MarshalBinary are identical tables; (R6) Encode feeds the hash the same slices in the same order as it writes, CRC little-endian last. With C14 (the polynomial has degree 16 and non-zero constant term, so every burst of <= 16 bits changes the residue) this gives the detection clause. NOT decided: the quantified statement as an input-output fact (the step from R1-R4 + C14 to it is on paper; corruptions that change which bytes are parsed are argued there), nor that a file Encode produced passes CheckIntegrity as an observation.",
+		explanation: "Decided: (R1) the input reader is read at exactly the enumerated sites; (R2) for each read site, every path from the read to a success exit of the enclosing function passes a write of exactly the bytes read into the running checksum (structural equality of slice access paths for exact-length reads; base/low/high = low+n algebra for the partial read in fill; the CRC-only copy's sink is the hash itself); (R3) hash typestate: every Sum16 whose result is compared or stored is dominated by at least one Write on that hash since its creation; (R4) verdict dominance: each nil return of checkCRC/decodeHeader/Header.CheckIntegrity/decode is dominated by a zero-residue test or a documented exemption edge (12-byte header, stored header CRC 0, header-only/file-id-only mode); (R5) the header layouts of decodeHeader, Header.CheckIntegrity and Header.MarshalBinary are identical tables; (R6) Encode feeds the hash the same slices in the same order as it writes, CRC little-endian last. With C14 (the polynomial has degree 16 and non-zero constant term, so every burst of <= 16 bits changes the residue) this gives the detection clause. NOT decided: the quantified statement as an input-output fact (the step from R1-R4 + C14 to it is on paper; corruptions that change which bytes are parsed are argued there), nor that a file Encode produced passes CheckIntegrity as an observation. C10-R4-shared-decode runs here too: no entry point has a private reading path.",
 		trusted:     []string{"io.ReadFull/binary.Read read exactly len(buf)/sizeof bytes or fail", "io.CopyN(dst,src,n) writes to dst every byte it reads from src and reads exactly n when it returns nil", "io.Reader.Read(p) fills p[0:n]", "CRC burst-error theorem applied to the polynomial proven in C14"},
 	})
 }
